@@ -144,6 +144,14 @@ RULE_BREAKERS = [
     ('star-in-sum', 'SELECT sum(*) FROM #t', None),
     ('star-in-length', 'SELECT length(*) FROM #t', None),
     ('valid-count-star', 'SELECT count(*), s FROM #t GROUP BY s', None),
+    # aggregates hidden below BETWEEN are aggregates
+    ('aggregate-in-where-between', 'SELECT s FROM #t WHERE sum(i) BETWEEN 1 AND 2', None),
+    ('aggregate-in-group-key-between', 'SELECT s FROM #t GROUP BY s, count(*) BETWEEN 1 AND 2', None),
+    ('aggregate-of-aggregate-between', 'SELECT count(sum(i) BETWEEN 1 AND 2) FROM #t', None),
+    ('mixed-between', 'SELECT i BETWEEN min(i) AND max(i) FROM #t', None),
+    ('valid-having-between', 'SELECT s, sum(i) FROM #t GROUP BY s HAVING sum(i) BETWEEN 1 AND 50', None),
+    ('valid-target-between', 'SELECT s, count(*) BETWEEN 1 AND 2 AS few FROM #t GROUP BY s', None),
+    ('valid-aggregate-between', 'SELECT count(*) BETWEEN 1 AND 100 AS ok FROM #t', None),
     ('coalesce-mixed-after-constant', "SELECT coalesce(s, '-', 0) FROM #t", None),
     ('coalesce-mixed-constants', "SELECT coalesce(1, 'a') FROM #t", None),
     ('coalesce-mixed-last', "SELECT coalesce(s, 'x', dt) FROM #t", None),
@@ -304,6 +312,14 @@ CLAUSE_STATEMENTS = [
     ('BALANCES FROM OPEN ON 2020-02-01 CLOSE', True),
     ('JOURNAL FROM OPEN ON 2020-02-01 CLOSE CLEAR', True),
     ('PRINT FROM OPEN ON 2020-02-01 CLOSE', True),
+    # grouping keys of a non-hashable type are rejected whether or not they are selected
+    ('SELECT count(*) GROUP BY balance', False),
+    ('SELECT count(*) GROUP BY meta', False),
+    ('SELECT account, count(*) GROUP BY account, entry.meta', False),
+    ('SELECT account, count(*) GROUP BY 1, other_accounts', False),
+    ('SELECT sum(number) GROUP BY units(balance)', False),
+    ('SELECT balance, count(*) GROUP BY balance', False),
+    ('SELECT count(*) GROUP BY position', True),
     ('SELECT account FROM OPEN ON 2020-02-01 CLOSE ON 2020-01-31', False),
     ('BALANCES FROM OPEN ON 2020-02-01 CLOSE ON 2020-01-31', False),
     ('JOURNAL FROM year > 2000 OPEN ON 2020-02-01 CLOSE ON 2020-01-31 CLEAR', False),
